@@ -1,0 +1,8 @@
+//go:build verif
+
+package queue
+
+// VerifState reports the position of the head, the number of elements and the
+// buffer capacity of q. It is compiled only with the "verif" build tag and is
+// used by monitors to record which internal states a workload visited.
+func (q *Queue[T]) VerifState() (head, n, capacity int) { return q.head, q.n, len(q.vs) }
